@@ -23,6 +23,8 @@ fn uri_alphabet() -> Vec<&'static str> {
         "http://zv.example/types/",
         "http://zv.example/1st",
         "http://zv.example/xml",
+        "http://zv.example/xmlstuff",
+        "http://zv.example/XMLSchema-instance-like",
         "http://zv.example/\u{fc}n\u{ef}",
         "http://zv.example/old/2006",
         "http://zv.example/new/2006",
@@ -194,7 +196,8 @@ fn is_ncname(s: &str) -> bool {
         Some(f) if f.is_alphabetic() || f == '_' => {}
         _ => return false,
     }
-    c.all(|x| x.is_alphanumeric() || x == '_' || x == '-' || x == '.')
+    // prefixes beginning with "xml" (any case) are reserved: XML writers refuse or drop them
+    c.all(|x| x.is_alphanumeric() || x == '_' || x == '-' || x == '.') && !s.to_ascii_lowercase().starts_with("xml")
 }
 
 pub fn check(tier: &str) -> i32 {
@@ -234,7 +237,7 @@ pub fn check(tier: &str) -> i32 {
             }
             if !is_ncname(p) {
                 bad = true;
-                agg.add(with(Violation::new("C10", "ns.prefix", "namespaces").ctx("aspect", "not-an-ncname").exp("a prefix is an NCName").act(format!("`{p}`"))));
+                agg.add(with(Violation::new("C10", "ns.prefix", "namespaces").ctx("aspect", "not-an-ncname").ctx("why", if p.to_ascii_lowercase().starts_with("xml") { "reserved-xml-prefix" } else { "illegal-characters" }).exp("a prefix is an NCName").act(format!("`{p}`"))));
             }
         }
         for (u, ps) in &u2p {
